@@ -27,16 +27,17 @@ type Replay struct {
 }
 
 type Job struct {
-	Mode     string    `json:"mode"` // dfs | replay | random
-	Cfgs     []obs.Cfg `json:"cfgs"`
-	POR      bool      `json:"por"`
-	MaxSteps int       `json:"max_steps"`
-	LogRuns  int       `json:"log_runs"`  // dfs/random: runs logged per configuration
-	LogLines int       `json:"log_lines"` // ... and lines
-	Seed     int64     `json:"seed"`
-	N        int       `json:"n"` // random: runs per configuration
-	Replays  []Replay  `json:"replays"`
-	Tag      string    `json:"tag"`
+	Mode        string    `json:"mode"` // dfs | replay | random
+	Cfgs        []obs.Cfg `json:"cfgs"`
+	POR         bool      `json:"por"`
+	MaxSteps    int       `json:"max_steps"`
+	LogRuns     int       `json:"log_runs"`  // dfs/random: runs logged per configuration
+	LogLines    int       `json:"log_lines"` // ... and lines
+	Seed        int64     `json:"seed"`
+	N           int       `json:"n"` // random: runs per configuration
+	Replays     []Replay  `json:"replays"`
+	Tag         string    `json:"tag"`
+	StartPoints bool      `json:"start_points"` // goroutine starts are scheduling points (language-version variant)
 }
 
 type Failure struct {
